@@ -1,5 +1,6 @@
 import Genshi.Wire
 import Genshi.Model.PyGen
+import Genshi.Model.PyParse
 import Driver.PyWire
 namespace Driver.C13
 open Genshi Genshi.Py Genshi.Sexp Driver.PyWire
@@ -21,6 +22,24 @@ def handle : List Sexp → Option Sexp
         match genModule body with
         | none => some (.atom "raises")
         | some ls => some (.list [.atom "ok", .list (ls.map encLine)])
+  | [.atom "parse", .list ts] =>
+      match ts.mapM decTok with
+      | none => some (.atom "unmodelled")
+      | some toks =>
+        match pyParse toks with
+        | none => some (.atom "none")
+        | some e => some (.list [.atom "ok", encE e])
+  | [.atom "roundtrip", t] =>
+      -- pyParse (gen e) = some e ?  (answers T / F / raises)
+      match decE t with
+      | none => some (.atom "unmodelled")
+      | some e =>
+        match genE e with
+        | none => some (.atom "raises")
+        | some toks =>
+          match pyParse toks with
+          | none => some (.atom "none")
+          | some e' => some (.list [.atom "ok", encE e'])
   | _ => none
 
 end Driver.C13
